@@ -150,6 +150,48 @@ async def run_real(adapter, cmds, data, log):
     await handle(Reader(), Writer())
 
 
+async def run_real_seq(adapter, chunks, log, intr_latency):
+    """a sequence of chunks on ONE connection through the TcpIo handle function; the client pipelines
+    (the next chunk is available at once) and raising an interrupt takes `intr_latency` loop iterations,
+    as it does when the real raise_interrupt awaits the state producer"""
+    from tickit.adapters.io.tcp_io import TcpIo
+    events = log
+
+    async def raise_interrupt():
+        for _ in range(intr_latency):
+            await asyncio.sleep(0)
+        events.append(("interrupt",))
+
+    class Reader:
+        def __init__(self):
+            self.k = 0
+
+        async def read(self, n):
+            if self.k < len(chunks):
+                self.k += 1
+                return chunks[self.k - 1]
+            for _ in range(8 + 4 * intr_latency):
+                await asyncio.sleep(0)
+            return b""
+
+    class Writer:
+        def write(self, b):
+            events.append(("write", list(b)))
+
+        def is_closing(self):
+            return False
+
+        async def drain(self):
+            pass
+
+        def get_extra_info(self, k):
+            return ("fake", 0)
+
+    io = TcpIo("localhost", 0)
+    handle = io._generate_handle_function(adapter.on_connect, adapter.handle_message, raise_interrupt, adapter.byte_format)
+    await handle(Reader(), Writer())
+
+
 def expected_events(cmds, data, fmt):
     """the property, directly"""
     orc = oracle(cmds, data)
@@ -291,6 +333,33 @@ def run(tier, seed, drv):
                     t = None
                 if rep["text"] != t:
                     res.diverge(f"decode+strip of {data!r}: python {t!r} model {rep['text']!r}", case)
+    # sequences of chunks on one connection, pipelined, with an interrupt that takes time to raise: the
+    # effect and interrupt of a chunk come before the effect of the next chunk, and the replies are
+    # written once each, in the order of the chunks
+    for si, cmds in enumerate(COMMAND_SETS):
+        pool = [m for m in messages(random.Random(seed + 11), "quick", cmds) if m != b""]
+        hits = [m for m in pool if any(g is not None for g in oracle(cmds, m))]
+        for k in range(40 if tier == "quick" else 400):
+            chunks = [rng.choice(hits) if hits and rng.random() < 0.8 else rng.choice(pool) for _ in range(rng.randrange(2, 5))]
+            lat = rng.choice((0, 1, 3))
+            log = []
+            adapter = build_adapter(cmds, log, None)
+            case = {"set": si, "chunks": [list(c) for c in chunks], "intr_latency": lat}
+            res.case((si, "seq", tuple(chunks), lat), nontrivial=True)
+            res.count("chunk-sequences")
+            try:
+                loop.run_until_complete(run_real_seq(adapter, chunks, log, lat))
+            except Exception as e:
+                res.violate(V("handler-raised", f"handling chunks {chunks!r} raised {type(e).__name__}:{e}", site=type(e).__name__), case)
+                continue
+            exp = [e for c in chunks for e in expected_events(cmds, c, None)]
+            real = [tuple(e) if e[0] != "write" else ("write", e[1]) for e in log]
+            w_real, w_exp = [e for e in real if e[0] == "write"], [tuple(e) for e in exp if e[0] == "write"]
+            x_real, x_exp = [list(e) for e in real if e[0] != "write"], [list(e) for e in exp if e[0] != "write"]
+            if [list(e) for e in w_real] != [list(e) for e in w_exp]:
+                res.violate(V("replies-not-once-in-order", f"chunks {chunks!r} (interrupt latency {lat}): written {w_real[:6]}, expected {w_exp[:6]}", site="TcpIo.handle"), case)
+            elif x_real != x_exp:
+                res.violate(V("effects-out-of-order", f"chunks {chunks!r} (interrupt latency {lat}): effects/interrupts {x_real[:8]}, expected {x_exp[:8]}", site="TcpIo.handle"), case)
     # unknown reply has the string type of the message
     try:
         from tickit.adapters.tcp import CommandAdapter
@@ -356,6 +425,26 @@ def replay(payload, drv):
     if "http" in c:
         return {"violations": []}
     cmds = COMMAND_SETS[c["set"]]
+    if "chunks" in c:
+        chunks = [bytes(x) for x in c["chunks"]]
+        log = []
+        loop = asyncio.new_event_loop()
+        err = None
+        try:
+            loop.run_until_complete(run_real_seq(build_adapter(cmds, log, None), chunks, log, c["intr_latency"]))
+        except Exception as e:
+            err = f"{type(e).__name__}:{e}"
+        loop.close()
+        exp = [list(e) for ch in chunks for e in expected_events(cmds, ch, None)]
+        real = [list(e) for e in log]
+        vs = []
+        if err:
+            vs.append(V("handler-raised", err))
+        elif [e for e in real if e[0] == "write"] != [e for e in exp if e[0] == "write"]:
+            vs.append(V("replies-not-once-in-order", f"{real} vs {exp}"))
+        elif [e for e in real if e[0] != "write"] != [e for e in exp if e[0] != "write"]:
+            vs.append(V("effects-out-of-order", f"{real} vs {exp}"))
+        return {"impl": real, "expected": exp, "error": err, "violations": vs}
     fmt = c["fmt"].encode() if c["fmt"] else None
     data = bytes(c["data"])
     log = []
